@@ -204,19 +204,34 @@ func (f *Frame) bindParams(args []Val, bind []Val) {
 // ---------- defer / recover ----------
 
 func (f *Frame) setupRecover() {
-	// a function is a recover scope when it defers (unconditionally, in its entry block) a closure that calls recover()
+	// a function is a recover scope when it defers a closure that calls recover(); the scope starts where the defer statement
+	// is executed (every block it dominates), so panics before it are not recovered
 	if f.fn.Recover == nil {
 		return
 	}
-	for _, ins := range f.fn.Blocks[0].Instrs {
-		if d, ok := ins.(*ssa.Defer); ok {
-			if mc, ok := d.Call.Value.(*ssa.MakeClosure); ok {
-				if callsRecover(mc.Fn.(*ssa.Function)) {
-					f.recoverSc = true
+	for _, b := range f.fn.Blocks {
+		for _, ins := range b.Instrs {
+			if d, ok := ins.(*ssa.Defer); ok {
+				if mc, ok := d.Call.Value.(*ssa.MakeClosure); ok {
+					if callsRecover(mc.Fn.(*ssa.Function)) {
+						f.recoverSc = true
+						f.deferBlk = b
+					}
 				}
 			}
 		}
 	}
+}
+
+// inRecoverScope: the instruction being processed in this frame executes after the recovering defer was registered.
+func (f *Frame) inRecoverScope() bool {
+	if !f.recoverSc || f.deferBlk == nil || f.curBlock == nil {
+		return false
+	}
+	if f.curBlock == f.deferBlk {
+		return f.deferSeen
+	}
+	return f.deferBlk.Dominates(f.curBlock)
 }
 
 func callsRecover(fn *ssa.Function) bool {
@@ -233,9 +248,12 @@ func callsRecover(fn *ssa.Function) bool {
 }
 
 func (f *Frame) deferCall(x *ssa.Defer) {
-	if x.Block() != f.fn.Blocks[0] {
-		f.abort("conditional defer is outside the modelled subset")
+	for _, l := range f.loops {
+		if l.body[x.Block()] {
+			f.abort("defer inside a loop is outside the modelled subset")
+		}
 	}
+	f.deferSeen = true
 	v := f.val(x.Call.Value)
 	if _, ok := v.(FnV); !ok {
 		f.abort("defer of a non-closure")
@@ -244,11 +262,18 @@ func (f *Frame) deferCall(x *ssa.Defer) {
 		f.abort("defer with arguments is outside the modelled subset")
 	}
 	f.defers = append(f.defers, v)
+	f.deferBlks = append(f.deferBlks, x.Block())
+	if f.deferHeap == nil {
+		f.deferHeap = f.cur.heap.clone()
+	}
 }
 
 // runDefers runs the deferred closures (latest first). panicking selects what recover() returns.
 func (f *Frame) runDefers(panicking bool) {
 	for i := len(f.defers) - 1; i >= 0; i-- {
+		if !panicking && f.curBlock != nil && f.deferBlks[i] != f.curBlock && !f.deferBlks[i].Dominates(f.curBlock) {
+			continue // this return is not preceded by the defer statement
+		}
 		fv := f.defers[i].(FnV)
 		g := newFrame(f.s, fv.Fn, f)
 		g.bindParams(nil, fv.Bind)
@@ -271,6 +296,10 @@ func (f *Frame) finishRecover() {
 		return
 	}
 	s := f.s
+	if f.top {
+		// facts about the recovery path are independent of how the panic point was reached
+		s.curBlk = f.fn.Recover
+	}
 	pr := s.freshConst("panicked", "Bool")
 	s.fact(eq(pr, or(f.panicEdge...)))
 	// the state at the panic is unknown: havoc every heap key except memory that existed before this call
@@ -286,6 +315,21 @@ func (f *Frame) finishRecover() {
 			heap[k] = a
 			continue
 		}
+		// a key no panic path has touched since the defer statement keeps its value (e.g. the cells of captured parameters)
+		if f.deferHeap != nil {
+			base := s.hget(f.deferHeap, k, srt)
+			same := true
+			for _, ph := range f.panicHeap {
+				if s.hget(ph, k, srt) != base {
+					same = false
+					break
+				}
+			}
+			if same {
+				heap[k] = base
+				continue
+			}
+		}
 		n := s.freshConst(qsymBase("P:"+k), srt)
 		heap[k] = n
 		old := s.hget(f.entryHeap, k, srt)
@@ -293,6 +337,15 @@ func (f *Frame) finishRecover() {
 	}
 	f.recoverSc = false // panics inside the deferred closure itself are not recovered
 	f.cur = &BState{pr, heap}
+	if f.c != nil {
+		for _, cl := range f.c.PanicInv {
+			f.hypMode = true
+			t := f.evalClause(cl, heap, f.entryHeap, nil)
+			f.hypMode = false
+			s.fact(implies(pr, t))
+			s.assume("panic_invariant of " + f.c.Key() + " is assumed to hold at every point where a panic can be raised inside the recover scope: " + cl.Text)
+		}
+	}
 	f.curBlock = f.fn.Recover
 	f.runDefers(true)
 	for _, ins := range f.fn.Recover.Instrs {
